@@ -33,11 +33,16 @@ NN == Case.n
 Nodes == 1..NN
 RangeS(s) == {s[j] : j \in DOMAIN s}
 Merge(f, g) == [k \in DOMAIN f \cup DOMAIN g |-> IF k \in DOMAIN g THEN g[k] ELSE f[k]]
+(* one layer over another: a signature of the upper layer replaces the lower layer's whole chain under it (Ovld.tla) *)
+Overlay(f, g) ==
+  LET sg == {k[1] : k \in DOMAIN g}
+      keep == {k \in DOMAIN f : k[1] \notin sg}
+  IN [k \in keep \cup DOMAIN g |-> IF k \in DOMAIN g THEN g[k] ELSE f[k]]
 
 RECURSIVE EffOf(_, _, _)
 EffOf(mx, ow, n) ==
-  LET F[j \in 0..Len(mx[n])] == IF j = 0 THEN <<>> ELSE Merge(F[j-1], EffOf(mx, ow, mx[n][j]))
-  IN Merge(F[Len(mx[n])], ow[n])
+  LET F[j \in 0..Len(mx[n])] == IF j = 0 THEN <<>> ELSE Overlay(F[j-1], EffOf(mx, ow, mx[n][j]))
+  IN Overlay(F[Len(mx[n])], ow[n])
 RECURSIVE AncOf(_, _)
 AncOf(mx, n) == RangeS(mx[n]) \cup UNION {AncOf(mx, p) : p \in RangeS(mx[n])}
 
